@@ -966,7 +966,16 @@ class Translator:
                 if self.defined_in.get(nm) != src and nm not in self.fns:
                     raise Unsupported('function %s not found in %s' % (nm, src))
                 wanted.append(nm)
-        fns = [self.fn(n) for n in wanted]
+        fns = []
+        self.failed = {}
+        for n in wanted:
+            try:
+                fns.append(self.fn(n))
+            except Unsupported as e:
+                # the function has left the subset: it is LEFT OUT of the generated file (the Lean proofs about it then fail to build, which
+                # the check of the properties anchored in it reports) and named in FAILED; the other functions are still translated
+                self.failed[n] = str(e)
+                self.cache.pop(n, None)
         order = []
         def visit(nm):
             if nm in order:
@@ -991,6 +1000,8 @@ class Translator:
         for nm in order:
             out += self.cache[nm].emit()
         out += ['def translatedFunctions : List String := [%s]' % ', '.join('"%s"' % n for n in order), '',
+                '/-- functions that have LEFT the translatable subset on this run (empty on the pinned tree) -/',
+                'def leftTheSubset : List String := [%s]' % ', '.join('"%s"' % n for n in sorted(self.failed)), '',
                 '/-- struct layouts the offsets above were taken from (compiled and run against the working tree) -/',
                 'def layoutUsed : List (String × Nat) := [%s]' % ', '.join('("%s", %d)' % (k, v) for k, v in sorted(self.layout.size.items())),
                 '', 'end LLTD.TW', '']
@@ -1000,12 +1011,19 @@ class Translator:
 TARGETS = [('x86-64 (host)', []), ('unsigned plain char', ['-funsigned-char'])]
 
 
+FAILED = {}     # function -> why it could not be translated (last run of translate())
+
+
 def translate(repo, verif=None):
+    global FAILED
     host = None
+    FAILED = {}
     for name, flags in TARGETS:
         m = subprocess.run(['clang-14', '-dM', '-E', '-x', 'c', '/dev/null'] + flags, stdout=subprocess.PIPE, stderr=subprocess.PIPE, text=True)
         C.CHAR_UNSIGNED = '__CHAR_UNSIGNED__' in m.stdout
-        txt = Translator(repo, flags).run()
+        tr = Translator(repo, flags)
+        txt = tr.run()
+        FAILED.update(tr.failed)
         if host is None:
             host = txt
         elif txt != host:
